@@ -93,26 +93,29 @@ Section Wrappers.
 
   (* [dst] is the whole backing array handed in (cap(dst) = length dst): only
      its capacity is used, dst[:0] drops the contents. *)
+  (* the part of Decode after a successful Get: dst sizing, the loop, the deferred cleanup *)
+  Definition decode_run (r : R) (pool1 : list R) (dst src : bytes) : outcome * list R :=
+    let cap := if Nat.eqb (length dst) 0 then 2 * length src else length dst in
+    let '(o, r1, _) := grow_loop fuel r (firstn 0 dst) cap in
+    match o with
+    | Hang => (Hang, pool1)  (* the call never returns: the deferred function never runs *)
+    | Done _ _ =>
+        (* defer: r.input.Reset(nil); if r.reader.Reset(nil) == nil { Put(r) } *)
+        let '(r2, e2) := rd_reset r1 None in
+        (o, if e2 then pool1 else r2 :: pool1)
+    end.
+
   Definition decode (pool : list R) (pick : option nat) (dst src : bytes) : outcome * list R :=
     (* r := d.readers.Get(new, reset) *)
     let '(r, init_err, pool1) :=
       match pool_get pool pick with
-      | None => let '(r, e) := rd_new src in (r, e, pool)
-      | Some (r0, rest) => let '(r, e) := rd_reset r0 (Some src) in (r, e, rest)
+      | None => (fst (rd_new src), snd (rd_new src), pool)
+      | Some (r0, rest) => (fst (rd_reset r0 (Some src)), snd (rd_reset r0 (Some src)), rest)
       end in
     if init_err then
       (* return dst[:0], initErr — the reader is dropped *)
       (Done (firstn 0 dst) true, pool1)
-    else
-      let cap := if Nat.eqb (length dst) 0 then 2 * length src else length dst in
-      let '(o, r1, _) := grow_loop fuel r (firstn 0 dst) cap in
-      match o with
-      | Hang => (Hang, pool1)  (* the call never returns: the deferred function never runs *)
-      | Done _ _ =>
-          (* defer: r.input.Reset(nil); if r.reader.Reset(nil) == nil { Put(r) } *)
-          let '(r2, e2) := rd_reset r1 None in
-          (o, if e2 then pool1 else r2 :: pool1)
-      end.
+    else decode_run r pool1 dst src.
 
   (** ---- Compressor.Encode --------------------------------------------- *)
 
@@ -122,17 +125,19 @@ Section Wrappers.
     if e1 then ((out0 ++ o1, true), w1)
     else let '((o2, e2), w2) := wr_close w1 in ((out0 ++ o1 ++ o2, e2), w2).
 
+  Definition encode_run (w : W) (pool1 : list W) (dst src : bytes) : outcome * list W :=
+    let '((out, e), w1) := wrun w (firstn 0 dst) src in
+    (* defer: w.output = *bytes.NewBuffer(nil); w.writer.Reset(io.Discard); Put(w) *)
+    (Done out e, wr_reset w1 false :: pool1).
+
   Definition encode (pool : list W) (pick : option nat) (dst src : bytes) : outcome * list W :=
     let '(w, init_err, pool1) :=
       match pool_get pool pick with
-      | None => let '(w, e) := wr_new in (w, e, pool)
+      | None => (fst wr_new, snd wr_new, pool)
       | Some (w0, rest) => (wr_reset w0 true, false, rest)
       end in
     if init_err then (Done (firstn 0 dst) true, pool1)
-    else
-      let '((out, e), w1) := wrun w (firstn 0 dst) src in
-      (* defer: w.output = *bytes.NewBuffer(nil); w.writer.Reset(io.Discard); Put(w) *)
-      (Done out e, wr_reset w1 false :: pool1).
+    else encode_run w pool1 dst src.
 
   (** ---- a codec value = its two pools; histories ----------------------- *)
   Record cstate := mk_cstate { readers : list R; writers : list W }.
